@@ -43,6 +43,12 @@ theorem newService_log_not_repoll (f : Fac) (cfg : Nat) : ∀ e ∈ (newService 
   | unitConfig a ih => simpa [newService] using ih 0
   | boxed a ih => simpa [newService] using ih cfg
   | rc a ih => simpa [newService] using ih cfg
+  | reenter k a ih =>
+    have := ih (reReq cfg)
+    intro e he; simp only [newService, List.mem_append] at he
+    rcases he with he | he
+    · simp only [freEvts] at he; split at he <;> simp at he <;> (rcases he with rfl | rfl <;> rfl) <;> (subst he; rfl)
+    · exact this e he
 
 /-! ## Wake-ups (C12): a `Pending` answer of a combinator is backed by an inner `Pending` answer given
 to the *current* waker.  The scripted leaves park the waker they are polled with whenever they answer
